@@ -50,7 +50,7 @@ def case_strategy(draw, variant):
     op = draw(st.sampled_from(names))
     o = ops.OPS[op]
     kw = o.kw(draw, n) if o.kw else {}
-    mask = draw(S.mask_spec(n, kinds=(mk,), negative_pos=True))
+    mask = draw(S.mask_spec(n, kinds=(mk,), negative_pos=True, steps=layout == "contiguous"))
     # perturbation for relation 2
     alt_vals = draw(S.value_column(n, dtypes=(vspec["dtype"],), regime="exact"))["vals"]
     if vspec["dtype"].startswith(("M8", "m8")) and vspec["dtype"].endswith("[ns]"):
@@ -64,6 +64,7 @@ def case_strategy(draw, variant):
             prior.append(draw(S.mask_spec(n, kinds=("bool",)))["vals"])
     return {"n": n, "keys": keys, "vals": [vspec], "mask": mask, "op": op, "kw": kw, "layout": layout, "prior": prior,
             "threshold": draw(st.integers(1, n)), "key_chunks": draw(st.integers(1, 5)),
+            "threads": draw(st.sampled_from([1, 1, 2, 3, 4])),  # rows split across worker threads (contiguous keys; seam scaled down)
             "sort": draw(st.sampled_from([True, True, False])), "alt_vals": alt_vals,
             "alt_keys": [k["vals"] for k in alt_keys] if alt_keys and all(a["t"] == b["t"] for a, b in zip(alt_keys, keys)) else None,
             "render": {"mc": draw(st.sampled_from(["np", "series"])), "vc": draw(st.sampled_from(["np", "series"])), "kc": "np"}}
@@ -95,8 +96,9 @@ def exec_case(case, with_prior=False):
         with gbops.Shims(threshold=case["threshold"], key_chunks=case["key_chunks"]):
             gb = gbops.build(case, keys)
             return _call_with_prior(case, o, gb, v, mask, prior)
-    gb = gbops.build(case, keys)
-    return _call_with_prior(case, o, gb, v, mask, prior)
+    with gbops.Shims(threads=case.get("threads") if case.get("threads", 1) > 1 else None):
+        gb = gbops.build(case, keys)
+        return _call_with_prior(case, o, gb, v, mask, prior)
 
 
 def filtered(case, positions):
@@ -111,6 +113,7 @@ def filtered(case, positions):
             c["kw"][k] = [c["kw"][k][p] for p in positions]
     c["mask"] = None
     c["layout"] = "contiguous"
+    c["threads"] = 1
     return c
 
 
@@ -181,7 +184,7 @@ def check(case, ctx):
     ctx.seen("mask", case, proper and changes,
              [f"op:{case['op']}", "mask:" + case["mask"]["kind"], f"opkind:{o.kind}", f"layout:{case.get('layout')}",
               "sel:empty" if not positions else ("sel:all" if len(set(positions)) == n else "sel:proper"),
-              f"repeats:{len(positions) != len(set(positions))}", f"prior_calls:{len(case.get('prior') or [])}"])
+              f"repeats:{len(positions) != len(set(positions))}", f"prior_calls:{len(case.get('prior') or [])}", f"threads:{case.get('threads', 1) if case.get('layout') != 'chunkwise' else 'chunkwise'}"])
     # ---- relation 1: filter first
     if not positions:
         if o.kind == "red":
